@@ -279,3 +279,45 @@ pub fn craft_close_session(
     hdr.encode(&crypto, key.map(|k| CanonAeadKeyRef::new(k)), src_node, &mut wb).ok()?;
     Some(wb.as_slice().to_vec())
 }
+
+/// An application message secured with `key` (the key the receiver decrypts with; `src_node` =
+/// the sender's node id for the nonce), for the receiver's local session id `sess_id`.
+#[allow(clippy::too_many_arguments)]
+pub fn craft_secured(
+    key: &[u8; 16],
+    src_node: u64,
+    sess_id: u16,
+    ctr: u32,
+    exch_id: u16,
+    initiator: bool,
+    reliable: bool,
+    proto_id: u16,
+    opcode: u8,
+    payload: &[u8],
+) -> Option<Vec<u8>> {
+    use rs_matter::utils::storage::WriteBuf;
+    let mut hdr = PacketHdr::new();
+    hdr.plain.sess_id = sess_id;
+    hdr.plain.ctr = ctr;
+    hdr.proto.exch_id = exch_id;
+    if initiator {
+        hdr.proto.set_initiator();
+    } else {
+        hdr.proto.unset_initiator();
+    }
+    if reliable {
+        hdr.proto.set_reliable();
+    } else {
+        hdr.proto.unset_reliable();
+    }
+    hdr.proto.proto_id = proto_id;
+    hdr.proto.proto_opcode = opcode;
+    let mut buf = vec![0u8; payload.len() + 128];
+    let reserve = PacketHdr::HDR_RESERVE;
+    let end = reserve + payload.len();
+    buf[reserve..end].copy_from_slice(payload);
+    let crypto = mk_crypto(1);
+    let mut wb = WriteBuf::new_with(&mut buf, reserve, end);
+    hdr.encode(&crypto, Some(CanonAeadKeyRef::new(key)), src_node, &mut wb).ok()?;
+    Some(wb.as_slice().to_vec())
+}
